@@ -1,13 +1,99 @@
 (* Props/C13.v -- add_constraint_and_split connects its end points and splits what it crosses.
-   The algorithm is not modelled.  Decided per call on the implementation's before/after states (Refine/Outer.v): existing vertices
-   keep index, position and data; the returned edges form a connected chain of constraint edges from a to b; every previously
-   existing constraint edge is still covered by a chain of constraint edges whose interior vertices are vertices created by this
-   call or existing vertices lying exactly on it.  Proved: the underlying segment model keeps constraints non-crossing (C04). *)
+   The algorithm is not modelled.  Decided per call on the implementation's before/after states (Check/Run.v check_split, Refine/Outer.v):
+   existing vertices keep index, position and data; the returned edges form a connected chain of constraint edges from a to b; every
+   previously existing constraint edge is still covered by a walk of constraint edges whose interior vertices are vertices created by
+   this call, vertices of the returned chain, existing vertices lying strictly between two anchors, or existing vertices lying strictly
+   inside the covered segment.
+   Proved here (Cdt/SplitProp.v, Cdt/SplitProofs.v): each of these executable decisions is exactly its declarative statement.  In
+   particular the depth-first search `covered` decides the existence of an (arbitrary, not necessarily simple) walk: loops can be
+   removed, a simple walk has at most nV vertices, so the fuel nV + 1 used by the checker is sufficient (no fuel hypothesis).
+   The only hypothesis is the range fact DestInRange, which follows from well-formedness (C13_wf_gives_range) and is itself decided on
+   every state (tag wf).  Satisfiability of all hypotheses on a real run: SplitProofs.ex_split_*.
+   Also proved: the underlying segment model keeps constraints non-crossing (C04). *)
 From Coq Require Import ZArith List Bool Arith.
-From SpadeV Require Import Geom.Pred Cdt.SegSpec Cdt.SegSpecProofs.
+From SpadeV Require Import Geom.Pred Cdt.SegSpec Cdt.SegSpecProofs Obs.State Obs.Spec Obs.SpecProp Obs.Query Obs.QueryProp Refine.Outer
+  Check.Codes Check.Run Cdt.SplitProp Cdt.SplitProofs.
+Import ListNotations.
 
 Theorem C13_sub_segment_crossing : forall a b p q c d, a <> b -> on_segment a b p = true -> on_segment a b q = true ->
   proper_cross p q c d = true -> proper_cross a b c d = true.
 Proof. exact sub_cross. Qed.
 
+(* existing vertices keep index, position bits and payload *)
+Theorem C13_prefix_unchanged : forall p n, prefix_unchanged p n = true <-> PrefixUnchanged p n.
+Proof. exact prefix_unchanged_spec. Qed.
+
+(* the returned list is a head-to-tail path of existing constraint half-edges from va to vb *)
+Theorem C13_chain_connectivity : forall n vb l cur, chain_conn n vb cur l = true <-> ChainFromTo n cur vb l.
+Proof. exact chain_conn_spec. Qed.
+
+(* the search with explicit fuel finds exactly the simple walks that avoid the visited vertices and are shorter than the fuel *)
+Theorem C13_search_with_fuel : forall s pts old_nv allowed fuel a b t vis u,
+  cover_dfs s pts old_nv allowed fuel a b t vis u = true <->
+  exists l, Walk s pts old_nv allowed a b t u l /\ NoDup l /\ (forall x, In x l -> ~ In x vis) /\ length l < fuel.
+Proof. exact cover_dfs_spec. Qed.
+
+(* loop removal: every walk contains a simple walk that does not return to its start *)
+Theorem C13_walk_simple : forall s pts old_nv allowed a b t u l, Walk s pts old_nv allowed a b t u l ->
+  exists l', Walk s pts old_nv allowed a b t u l' /\ NoDup l' /\ ~ In u l' /\ incl l' l.
+Proof. exact Walk_simple. Qed.
+
+(* fuel sufficiency: with the checker's fuel the search decides the existence of a covering walk *)
+Theorem C13_covered : forall s pts old_nv allowed, DestInRange s -> forall u v,
+  covered s pts old_nv allowed u v = true <-> Covered s pts old_nv allowed u v.
+Proof. exact covered_spec. Qed.
+
+Theorem C13_constraints_covered_via : forall allowed p n npts, DestInRange n ->
+  (constraints_covered_via allowed p n npts = true <-> ConstraintsCoveredVia allowed p n npts).
+Proof. exact constraints_covered_via_spec. Qed.
+
+(* coverage is symmetric (a covering walk can be reversed), so deciding the half-edges 2k decides every constraint half-edge of the
+   old state in its own direction *)
+Theorem C13_covered_symmetric : forall s pts old_nv allowed, TwinsInRange s -> forall u v,
+  Covered s pts old_nv allowed u v -> Covered s pts old_nv allowed v u.
+Proof. exact Covered_sym. Qed.
+
+Theorem C13_constraints_covered_all_halfedges : forall al p n npts, TwinsInRange p -> o_ne p * 2 = nH p -> TwinsInRange n ->
+  (ConstraintsCoveredVia al p n npts <-> ConstraintsCoveredHalfEdges al p n npts).
+Proof. exact ConstraintsCoveredVia_halfedges. Qed.
+
+Theorem C13_wf_gives_twins : forall s, Wf s -> TwinsInRange s.
+Proof. exact Wf_TwinsInRange. Qed.
+
+(* the old vertices at which check_split lets the operation subdivide *)
+Theorem C13_allowed_vertices : forall p n npts va vb chain w,
+  In w (split_allowed p n npts va vb chain) <-> SplitAllowed p n npts va vb chain w.
+Proof. exact split_allowed_spec. Qed.
+
+(* the verdict reported under tag `split` *)
+Theorem C13_split_verdict : forall p n npts va vb chain, DestInRange n ->
+  (split_verdict p n npts va vb chain = true <-> SplitOk p n npts va vb chain).
+Proof. exact split_verdict_spec. Qed.
+
+Theorem C13_wf_gives_range : forall s, Wf s -> DestInRange s.
+Proof. exact Wf_DestInRange. Qed.
+
+(* check_split of Check/Run.v is literally split_verdict applied to the decoded positions and the parsed chain.  (Its statement mentions
+   obs_points, i.e. the binary64 decoding through Flocq, hence the four Flocq/Reals axioms in its assumptions; its proof is reflexivity.) *)
+Theorem C13_check_split_is_split_verdict : forall p n a b res,
+  check_split p n a b res =
+  match obs_points n, counted res with
+  | Some npts, Some chain => [(T_split, split_verdict p n npts (Z.to_nat a) (Z.to_nat b) chain)]
+  | _, _ => [(T_parse, false)]
+  end.
+Proof. exact check_split_unfold. Qed.
+
 Print Assumptions C13_sub_segment_crossing.
+Print Assumptions C13_prefix_unchanged.
+Print Assumptions C13_chain_connectivity.
+Print Assumptions C13_search_with_fuel.
+Print Assumptions C13_walk_simple.
+Print Assumptions C13_covered.
+Print Assumptions C13_constraints_covered_via.
+Print Assumptions C13_covered_symmetric.
+Print Assumptions C13_constraints_covered_all_halfedges.
+Print Assumptions C13_wf_gives_twins.
+Print Assumptions C13_allowed_vertices.
+Print Assumptions C13_split_verdict.
+Print Assumptions C13_wf_gives_range.
+Print Assumptions C13_check_split_is_split_verdict.
